@@ -197,3 +197,17 @@ def plan_C18(chk, tier, seed):
 
 
 PLANS.update({"C05": plan_C05, "C11": plan_C11, "C18": plan_C18})
+
+
+def plan_C12(chk, tier, seed):
+    cfgs = ["none", "all"] if tier == "quick" else ALL8
+    simple(chk, "MC_Lattice", cfgs, ["C12"], ["TypeOK", "DecodeTotal", "LimitsExact", "Emit"])
+    return ("every bounded member (user id 64, rp id 256, user icon 128, parameter type 32, allow list 10, exclude list "
+            "16, saltEnc 80, saltAuth 32, COSE x/y 32, rpIDHash =32) at 0, 1, limit-1, limit, limit+1, 4*limit inside "
+            "the full request of every command that carries it; every u8 / u32 member at 0, 1, 23, 24, max, max+1, "
+            "2^32, 2^63, 2^64-1; algorithm identifiers around +-2^31; unbounded borrows at 0..7000 bytes; TLC checks "
+            "LimitsExact (limits written from the property, decision from the decoder) and the vectors carry the "
+            "model's decoded value, so an accepted value that was shortened, wrapped or clamped is a mismatch")
+
+
+PLANS.update({"C12": plan_C12})
